@@ -439,6 +439,22 @@ _run_clauses = run
 def run(prog, rep):
     _run_clauses(prog, rep)
     from plint.wiring import check_zero_init
+    # address -> text: inet_ntop is given room for the longest text of its family, terminator included (INET_ADDRSTRLEN 16,
+    # INET6_ADDRSTRLEN 46) and no more than the buffer has; one less and 255.255.255.255-shaped addresses fail with ENOSPC, which the
+    # caller does not look at - it then copies an uninitialised buffer
+    _ga = prog.unit("psocketaddress.c").fn("p_socket_address_get_address")
+    _nt = [c for (b, i, c) in _ga.calls() if c.get("callee") == "inet_ntop" and len(c["args"]) >= 4]
+    _bad = []
+    for c in _nt:
+        fam_, sz_ = cv(c["args"][0]), cv(c["args"][3])
+        if sz_ is None:
+            sz_ = guards.eval_const(c["args"][3], guards.EMPTY)
+        need_ = {2: 16, 10: 46}.get(fam_)
+        if need_ is not None and sz_ is not None and sz_ < need_:
+            _bad.append((c, "the %s text buffer size handed to inet_ntop is %d, the longest text with its terminator needs %d" % ("IPv4" if fam_ == 2 else "IPv6", sz_, need_)))
+    rep.ob("C17.4", _ga, "ntop:size", bool(_nt) and not _bad, "inet_ntop is given room for the longest text of each family" if (_nt and not _bad) else
+           ("line %d: %s: addresses whose text is that long come back as whatever the stack buffer held" % (line(_bad[0][0]), _bad[0][1]) if _bad else "no inet_ntop call found"),
+           _bad[0][0] if _bad else _ga.loc[0])
     from plint.wiring import array_bounds
     _bu = prog.unit("psocketaddress.c")
     _bj, _bb = 0, []
@@ -456,6 +472,8 @@ def run(prog, rep):
 RENAME_LOCALS = ['src/psocketaddress.c']
 
 SELFTEST = [
+    dict(id="address-text-buffer-one-short", file="src/psocketaddress.c", expect="C17.4",
+         old="inet_ntop (AF_INET, &addr->addr.sin_addr, buffer, sizeof (buffer));", new="inet_ntop (AF_INET, &addr->addr.sin_addr, buffer, INET_ADDRSTRLEN - 1);"),
     dict(id="is-any-sixteen-bit-swap", file="src/psocketaddress.c", expect="C17.5",
          old="\t\taddr4 = p_ntohl (* ((puint32 *) &addr->addr.sin_addr));\n\n\t\treturn (addr4 == INADDR_ANY);", new="\t\taddr4 = p_ntohs (* ((puint32 *) &addr->addr.sin_addr));\n\n\t\treturn (addr4 == INADDR_ANY);"),
     dict(id="to-native-clears-whole-struct-before-guard", file="src/psocketaddress.c", expect="C17.1",
